@@ -38,8 +38,9 @@ XO_RACY = {"BodyAtMostOnce", "SyncFirstRunSerialised", "MutexExcludes", "NoRunAf
 def _events_cfg(consts, styles, shard=None, check=False, emit=False, nshards=1, init=None, invs=(), props=()):
     c = dict(consts)
     c.update(NShards=nshards, Shard=shard or 0)
-    return tlc.cfg(constants=c, init=init or ("InitEmit" if emit else "Init"), invariants=invs, properties=props, view="View",
-                   action_constraints=["EmitShard"] if emit else [], constraints=["Depth"],
+    return tlc.cfg(constants=c, init=init or ("InitEmit" if emit else "Init"), next_="NextDump" if emit else "Next",
+                   invariants=invs, properties=props, view="View",
+                   action_constraints=["EmitShard"] if emit else [], constraints=[] if emit else ["Depth"],
                    extra="CONSTANT Styles <- " + styles)
 
 
